@@ -6,7 +6,10 @@ use std::ops::{Add, AddAssign, Sub};
 pub struct Instant(u64);
 
 impl Instant {
+    /// Reading the clock is a visible operation: a scheduling point (it also breaks up otherwise
+    /// atomic stretches of code between two synchronisation operations).
     pub fn now() -> Instant {
+        crate::rt::point(crate::rt::Op::User);
         Instant(crate::rt::now_ns())
     }
     pub fn elapsed(&self) -> Duration {
